@@ -1,1 +1,229 @@
-//! TODO
+//! Independent encoder for format versions 1, 2 and 3, written from the format description.
+//! Builds its own (suffix-merged) transducer with a randomised but valid placement of outputs along the
+//! paths (incl. non-zero final outputs), random valid node forms and non-minimal pack widths.
+use crate::gen::Kv;
+use crate::refdec::{crc32c, mask, COMMON_INV};
+use crate::rng::Rng;
+use std::collections::{BTreeMap, HashMap};
+
+#[derive(Default)]
+struct T {
+    kids: BTreeMap<u8, usize>,
+    val: Option<u64>,
+    min: u64,
+}
+
+fn psize(n: u64) -> usize {
+    if n == 0 {
+        1
+    } else {
+        ((64 - n.leading_zeros() as usize) + 7) / 8
+    }
+}
+fn pack(out: &mut Vec<u8>, v: u64, n: usize) {
+    for i in 0..n {
+        out.push((v >> (8 * i)) as u8);
+    }
+}
+fn common_idx(b: u8) -> Option<u8> {
+    COMMON_INV.iter().position(|&c| c == b).map(|p| (p + 1) as u8)
+}
+
+struct Enc<'a> {
+    tr: Vec<T>,
+    version: u64,
+    out: Vec<u8>,
+    rng: &'a mut Rng,
+    memo: HashMap<(bool, u64, Vec<(u8, u64, usize)>), usize>,
+    last_addr: usize,
+    /// encoder policy: 0 = always the widest/plain forms, 1 = random valid forms, 2 = most compact forms
+    policy: u8,
+}
+
+impl<'a> Enc<'a> {
+    /// iterative post-order encoding; returns the address of the node for trie node `root`
+    fn encode(&mut self, root: usize) -> usize {
+        // compute subtree minima (iteratively, children have larger indices than parents)
+        for i in (0..self.tr.len()).rev() {
+            let mut m = self.tr[i].val.unwrap_or(u64::MAX);
+            let kids: Vec<usize> = self.tr[i].kids.values().cloned().collect();
+            for c in kids {
+                m = m.min(self.tr[c].min);
+            }
+            self.tr[i].min = m;
+        }
+        // frames: (trie node, base output already emitted above, child iterator position, collected transitions)
+        struct F {
+            t: usize,
+            base: u64,
+            kids: Vec<(u8, usize)>,
+            next: usize,
+            trans: Vec<(u8, u64, usize)>,
+            pending_out: u64,
+        }
+        let mk = |tr: &Vec<T>, t: usize, base: u64| F { t, base, kids: tr[t].kids.iter().map(|(b, c)| (*b, *c)).collect(), next: 0, trans: vec![], pending_out: 0 };
+        let mut stack = vec![mk(&self.tr, root, 0)];
+        let mut result = 0usize;
+        loop {
+            let top = stack.len() - 1;
+            if stack[top].next < stack[top].kids.len() {
+                let (_, c) = stack[top].kids[stack[top].next];
+                let base = stack[top].base;
+                let room = self.tr[c].min - base;
+                let o = match self.rng.below(3) {
+                    0 => 0,
+                    1 => room,
+                    _ => {
+                        if room == 0 {
+                            0
+                        } else {
+                            self.rng.below(room).saturating_add(self.rng.below(2)).min(room)
+                        }
+                    }
+                };
+                stack[top].pending_out = o;
+                let f = mk(&self.tr, c, base + o);
+                stack.push(f);
+            } else {
+                let f = stack.pop().unwrap();
+                let node = &self.tr[f.t];
+                let is_final = node.val.is_some();
+                let fo = node.val.map(|v| v - f.base).unwrap_or(0);
+                let addr = self.emit(is_final, fo, &f.trans);
+                if stack.is_empty() {
+                    result = addr;
+                    break;
+                }
+                let top = stack.len() - 1;
+                let (b, _) = stack[top].kids[stack[top].next];
+                let o = stack[top].pending_out;
+                stack[top].trans.push((b, o, addr));
+                stack[top].next += 1;
+            }
+        }
+        result
+    }
+
+    fn emit(&mut self, is_final: bool, fo: u64, trans: &[(u8, u64, usize)]) -> usize {
+        if is_final && trans.is_empty() && fo == 0 {
+            return 0;
+        }
+        let key = (is_final, fo, trans.to_vec());
+        if let Some(&a) = self.memo.get(&key) {
+            return a;
+        }
+        let start = self.out.len();
+        let compact = match self.policy {
+            0 => false,
+            2 => true,
+            _ => self.rng.chance(2, 3),
+        };
+        let one = trans.len() == 1 && !is_final;
+        if one && compact {
+            let (inp, o, tgt) = trans[0];
+            let ci = if self.policy == 2 || self.rng.chance(3, 4) { common_idx(inp) } else { None };
+            if tgt != 0 && tgt == self.last_addr && o == 0 && tgt + 1 == start {
+                // one-trans-next
+                if ci.is_none() {
+                    self.out.push(inp);
+                }
+                self.out.push(0b1100_0000 | ci.unwrap_or(0));
+            } else {
+                // one-trans
+                let osize = if o == 0 { 0 } else { psize(o) + (self.policy == 1 && psize(o) < 8 && self.rng.chance(1, 4)) as usize };
+                if osize > 0 {
+                    pack(&mut self.out, o, osize);
+                }
+                let delta = if tgt == 0 { 0 } else { (start - tgt) as u64 };
+                let tsize = psize(delta) + (self.policy == 1 && psize(delta) < 8 && self.rng.chance(1, 4)) as usize;
+                pack(&mut self.out, delta, tsize);
+                self.out.push(((tsize as u8) << 4) | osize as u8);
+                if ci.is_none() {
+                    self.out.push(inp);
+                }
+                self.out.push(0b1000_0000 | ci.unwrap_or(0));
+            }
+        } else {
+            let m = trans.iter().map(|t| t.1).chain(std::iter::once(fo)).max().unwrap();
+            let osize = if m == 0 { 0 } else { psize(m) + (self.policy == 1 && psize(m) < 8 && self.rng.chance(1, 4)) as usize };
+            let tsize = trans.iter().map(|t| if t.2 == 0 { 1 } else { psize((start - t.2) as u64) }).max().unwrap_or(0);
+            let tsize = if tsize > 0 && tsize < 8 && self.policy == 1 && self.rng.chance(1, 5) { tsize + 1 } else { tsize };
+            if osize > 0 {
+                if is_final {
+                    pack(&mut self.out, fo, osize);
+                }
+                for t in trans.iter().rev() {
+                    pack(&mut self.out, t.1, osize);
+                }
+            }
+            for t in trans.iter().rev() {
+                pack(&mut self.out, if t.2 == 0 { 0 } else { (start - t.2) as u64 }, tsize);
+            }
+            for t in trans.iter().rev() {
+                self.out.push(t.0);
+            }
+            let n = trans.len();
+            if self.version >= 2 && n > 32 {
+                // absent bytes: any value >= n
+                let filler = if n == 256 { 255 } else { (n as u8).max(if self.policy == 1 { 200 } else { 255 }).max(n as u8) };
+                let mut ix = [filler; 256];
+                for (i, t) in trans.iter().enumerate() {
+                    ix[t.0 as usize] = i as u8;
+                }
+                self.out.extend_from_slice(&ix);
+            }
+            self.out.push(((tsize as u8) << 4) | (osize as u8));
+            let bits = if n <= 63 { n as u8 } else { 0 };
+            if bits == 0 {
+                self.out.push(if n == 256 { 1 } else { n as u8 });
+            }
+            self.out.push(bits | if is_final { 0x40 } else { 0 });
+        }
+        let addr = self.out.len() - 1;
+        self.last_addr = addr;
+        self.memo.insert(key, addr);
+        addr
+    }
+}
+
+/// Encode `model` (sorted, unique keys) as a version `version` file of type `ty`.
+pub fn encode(model: &Kv, version: u64, ty: u64, policy: u8, rng: &mut Rng) -> Vec<u8> {
+    let mut tr = vec![T::default()];
+    for (k, v) in model {
+        let mut n = 0;
+        for &b in k {
+            n = match tr[n].kids.get(&b) {
+                Some(&c) => c,
+                None => {
+                    tr.push(T::default());
+                    let c = tr.len() - 1;
+                    tr[n].kids.insert(b, c);
+                    c
+                }
+            };
+        }
+        tr[n].val = Some(*v);
+    }
+    let mut out = vec![];
+    out.extend_from_slice(&version.to_le_bytes());
+    out.extend_from_slice(&ty.to_le_bytes());
+    let root = if model.is_empty() {
+        // the empty FST: a non-final root without transitions
+        out.push(0);
+        out.push(0);
+        out.push(0);
+        out.len() - 1
+    } else {
+        let mut e = Enc { tr, version, out, rng, memo: HashMap::new(), last_addr: 1, policy };
+        let r = e.encode(0);
+        out = e.out;
+        r
+    };
+    out.extend_from_slice(&(model.len() as u64).to_le_bytes());
+    out.extend_from_slice(&(root as u64).to_le_bytes());
+    if version >= 3 {
+        let c = mask(crc32c(&out));
+        out.extend_from_slice(&c.to_le_bytes());
+    }
+    out
+}
